@@ -66,6 +66,7 @@ UnitDecls == <<
   URef("d", "D"),
   UScaled("kd", "D", <<10, 1>>, "dec", "d"),
   UScaled("bd", "D", <<1, 8>>, "frac", "d"),
+  UTerm("cd", "D", << <<"kd", 1>>, <<"cb", 1>>, <<"b", -1>> >>),  \* 1/10 d: smaller than the quantum (1/8 d) and no multiple of it
   URef("e", "E"),
   UScaled("he", "E", <<3, 2>>, "frac", "e"),
   UScaled("ke", "E", <<6, 1>>, "int", "e"),
@@ -92,6 +93,7 @@ UnitDecls == <<
   UPlain("tc", "T"),
   UPlain("tf", "T"),
   UPlain("tk", "T"),
+  UPlain("tx", "T"),                                           \* reached from tc only, factor and offset plain ints
   UCur("Z0", "Money", 0),
   UCur("Z2", "Money", 2),
   UCur("Z3", "Money", 3)
@@ -104,7 +106,8 @@ UnitDecls == <<
 TTable == {
   <<"tc", "tf", <<9, 5>>, <<32, 1>> >>,
   <<"tc", "tk", <<1, 1>>, <<5463, 20>> >>,        \* 273.15
-  <<"tk", "tf", <<9, 5>>, <<-45967, 100>> >> }    \* -459.67
+  <<"tk", "tf", <<9, 5>>, <<-45967, 100>> >>,     \* -459.67
+  <<"tc", "tx", <<3, 1>>, <<7, 1>> >> }            \* given to the library as the ints 3 and 7; tx -> tc by the exact inverse
 
 ----------------------------------------------------------------------------
 TypeNames == {TypeDecls[i].n : i \in DOMAIN TypeDecls}
